@@ -43,3 +43,5 @@ W void w_bsplvb_simple_d(const double* k, unsigned nk, double x, int left, int d
 W void w_bspline_deriv_nonzero_f(const double* k, unsigned nk, double x, int left, int n, float* out){ photospline::bspline_deriv_nonzero<float>(k,nk,x,left,n,out); }
 W void w_bspline_nonzero_f(const double* k, unsigned nk, double x, int left, int n, float* v, float* d){ photospline::bspline_nonzero<float>(k,nk,x,left,n,v,d); }
 W void w_bspline_nonzero_d(const double* k, unsigned nk, double x, int left, int n, double* v, double* d){ photospline::bspline_nonzero<double>(k,nk,x,left,n,v,d); }
+W double w_bspline_deriv(const double* k, double x, int i, int n, unsigned order){ return photospline::bspline_deriv(k,x,i,n,order); }
+W double w_bspline(const double* k, double x, int i, int n){ return photospline::bspline(k,x,i,n); }
